@@ -188,6 +188,9 @@ def main():
         fh.write('\n'.join(src) + '\n')
         for i, pos in enumerate((first, second)):
             fh.write('HETATM %4d CL    CL A %3d    %8.3f%8.3f%8.3f  1.00  0.00          CL\n' % (900 + i, 201 + i, pos[0], pos[1], pos[2]))
+    # residues E 109-114 of 3SGB: the program's own amide hydrogen of ILE 113 and HD21 of ASN 110 come out 1.42 A apart
+    # (two hydrogens of different parents closer than the X-H bonding distance)
+    cut(re_, seg(re_, (109, 110, 111, 112, 113, 114)), 'pep_close_hydrogens')
     print(sorted(os.listdir(OUT)))
 
 
